@@ -24,6 +24,7 @@ type Mutation struct {
 	Kind string `json:"kind"`
 	A    int    `json:"a,omitempty"`
 	B    int    `json:"b,omitempty"`
+	S    string `json:"s,omitempty"`
 }
 
 // ScriptPlan describes one hello built by the toolbox client and fed to a
@@ -47,6 +48,11 @@ type ScriptPlan struct {
 	// hello ends after the compression methods, "empty" = an extensions block
 	// of length zero.
 	ExtBlock string `json:"ext_block,omitempty"`
+	// Interleave > 0: another connection is served between this connection's
+	// NewConn and its (Interleave-1)-th Read. ErrWithData: the transport returns
+	// its last bytes together with the end of stream.
+	Interleave  int  `json:"interleave,omitempty"`
+	ErrWithData bool `json:"err_with_data,omitempty"`
 	// Prime: before the connection under test the process serves a connection
 	// under this other config.
 	Prime *KeySpec `json:"prime,omitempty"`
@@ -434,6 +440,25 @@ func buildScript(seed uint64, p *ScriptPlan) (*built, error) {
 			if len(p.Target.PublicName) > 200 {
 				outer.Exts[i] = echbox.SNIExt("other.example")
 			}
+			if m.A%3 == 2 {
+				// the outer hello names nobody: no server_name extension at all
+				outer.Exts = slices.Delete(outer.Exts, i, i+1)
+				if i < pair.EchIdx {
+					pair.EchIdx--
+				}
+			}
+		}
+	}
+	if m := hasMut(p.Mutations, "outer-sni-other"); m != nil {
+		// the outer hello names another front (the public name of another config)
+		if i := outer.Find(echbox.ExtSNI); i >= 0 {
+			outer.Exts[i] = echbox.SNIExt(m.S)
+		}
+	}
+	if m := hasMut(p.Mutations, "outer-sni-empty"); m != nil {
+		// a server_name extension that names nobody: empty list, or an empty host name
+		if i := outer.Find(echbox.ExtSNI); i >= 0 {
+			outer.Exts[i].Data = [][]byte{{0, 0}, {0, 3, 0, 0, 0}}[m.A%2]
 		}
 	}
 	if hasMut(p.Mutations, "outer-no-tls13") != nil {
@@ -672,9 +697,22 @@ func runScript(keys []ech.Key, in []byte, chunks []int, readBuf int) (*scriptOut
 // runScriptW: as runScript, but afterNewConn (if non-nil) is written through
 // Conn.Write right after NewConn returned (a backend flight such as a
 // HelloRetryRequest) before the rest of the client's bytes is read.
+// scriptHook, when set, runs once inside the next runScriptW, before its
+// scriptHookAfter-th Read (0: right after NewConn): another connection of the
+// same process gets served in between. scriptErrWithData makes the transport
+// hand over its last bytes together with the end of stream.
+var (
+	scriptHook        func()
+	scriptHookAfter   int
+	scriptErrWithData bool
+)
+
 func runScriptW(keys []ech.Key, in []byte, chunks []int, readBuf int, afterNewConn []byte) (*scriptOutcome, *simnet.ScriptConn) {
 	sc := simnet.NewScript(in)
 	sc.Chunks = chunks
+	sc.ErrWithData = scriptErrWithData
+	hook, hookAfter := scriptHook, scriptHookAfter
+	scriptHook, scriptErrWithData = nil, false
 	o := &scriptOutcome{}
 	var conn *ech.Conn
 	panicked, msg, site := core.Guard(func() {
@@ -706,6 +744,10 @@ func runScriptW(keys []ech.Key, in []byte, chunks []int, readBuf int, afterNewCo
 		}
 		buf := make([]byte, readBuf)
 		for i := 0; i < 1<<20; i++ {
+			if hook != nil && i == hookAfter {
+				hook()
+				hook = nil
+			}
 			n, err := conn.Read(buf)
 			o.read = append(o.read, buf[:n]...)
 			if err != nil {
@@ -797,7 +839,7 @@ func executeScript(t *testing.T, prop string, seed uint64, p *ScriptPlan) *core.
 		pp.Prime, pp.Mutations, pp.Trailer, pp.Chunks = nil, nil, nil, nil
 		pp.Target, pp.Keys, pp.Expect, pp.SuiteIdx = *p.Prime, []KeySpec{*p.Prime}, "accept", 0
 		if pb, perr := buildScript(core.Mix(seed, "prime"), &pp); perr == nil {
-			po, _ := runScriptW(pb.keys, pb.outerRec, nil, 0, nil)
+			po, _ := runScriptW(pb.keys, append(append([]byte(nil), pb.outerRec...), echbox.Record(23, 0x0303, []byte("earlier connection"))...), nil, 0, nil)
 			if po.err != nil || !po.accepted {
 				res.Fail(prop, "rejected-valid", "earlier connection of the process (another config) not accepted", "err=%v", po.err)
 				return res
@@ -805,7 +847,27 @@ func executeScript(t *testing.T, prop string, seed uint64, p *ScriptPlan) *core.
 			res.Probe("earlier_connection_other_config")
 		}
 	}
+	if p.Interleave > 0 {
+		// another client of the same process is served between this
+		// connection's NewConn and its (Interleave-1)-th Read
+		op := *p
+		op.Prime, op.Mutations, op.Trailer, op.Chunks, op.Interleave = nil, nil, []TrailerRec{{Type: 23, Len: 40}}, nil, 0
+		op.NoECH, op.Grease, op.Expect, op.InnerSNI = true, false, "passthrough", "another-connection.example"
+		if p.Expect == "accept" {
+			op.NoECH, op.Expect = false, "accept"
+		}
+		if ob, oerr := buildScript(core.Mix(seed, "other"), &op); oerr == nil {
+			oin := append(append([]byte(nil), ob.outerRec...), trailerBytes(seed+7, op.Trailer)...)
+			scriptHookAfter = p.Interleave - 1
+			scriptHook = func() {
+				runScriptW(ob.keys, oin, nil, 0, nil)
+				res.Probe("another_connection_in_between")
+			}
+		}
+	}
+	scriptErrWithData = p.ErrWithData
 	o, _ := runScriptW(b.keys, in, p.Chunks, p.ReadBuf, flight)
+	scriptHook = nil
 	if flight != nil {
 		res.Probe("passthrough_hrr_second_hello")
 		if bytes.HasPrefix(o.out, flight) {
